@@ -332,8 +332,8 @@ pub fn build() -> Property {
         phases: vec![
             Phase { name: "bitflips_exhaustive", kind: PhaseKind::Enum { n: (512 * 3 * 2, 512 * 3 * 2), exhaustive: (true, true), f: Box::new(bitflip_case) }, threads: 16 },
             Phase { name: "boundaries", kind: PhaseKind::Enum { n: (93 * 4 * 2, 93 * 4 * 2), exhaustive: (true, true), f: Box::new(boundary_case) }, threads: 16 },
-            Phase { name: "random_walks", kind: PhaseKind::Gen { cases: (6000, 120000), tape_len: 24000, f: Box::new(walk_case) }, threads: 16 },
-            Phase { name: "cli_walks", kind: PhaseKind::Gen { cases: (600, 6000), tape_len: 3000, f: Box::new(cli_case) }, threads: 16 },
+            Phase { name: "random_walks", kind: PhaseKind::Gen { cases: (30000, 400000), tape_len: 24000, f: Box::new(walk_case) }, threads: 16 },
+            Phase { name: "cli_walks", kind: PhaseKind::Gen { cases: (3000, 20000), tape_len: 3000, f: Box::new(cli_case) }, threads: 16 },
         ],
     }
 }
